@@ -264,6 +264,22 @@ fn app_options(resp: &mut CoapResponse, optset: u8) {
             resp.message.add_option(CoapOption::MaxAge, vec![0]);
             resp.message.add_option(CoapOption::Size2, vec![0x4E, 0x20]);
         }
+        // options with several values: the same value twice, an empty one in between, more than one ETag
+        6 => {
+            for seg in [&b"a"[..], b"b", b"a"] {
+                resp.message.add_option(CoapOption::LocationPath, seg.to_vec());
+            }
+            resp.message.add_option(CoapOption::LocationQuery, b"x=1".to_vec());
+            resp.message.add_option(CoapOption::LocationQuery, b"x=1".to_vec());
+        }
+        7 => {
+            resp.message.add_option(CoapOption::ETag, vec![2, 2]);
+            resp.message.add_option(CoapOption::ETag, vec![1]);
+            resp.message.add_option(CoapOption::ETag, vec![2, 2]);
+            for seg in [&b"z"[..], b"", b"z", b""] {
+                resp.message.add_option(CoapOption::LocationPath, seg.to_vec());
+            }
+        }
         _ => {}
     }
 }
@@ -273,6 +289,8 @@ pub fn download(out: &mut Out, start: Instant, d: &Dl, r: &mut Rng, xid: u64) {
     let body = body_bytes(d.body_len, xid as usize);
     let ep = "client-a";
     let mut mid: u16 = r.next() as u16;
+    // large replies leave in blocks whatever the method of the request (one method per transfer)
+    let dcode: u8 = [1u8, 1, 1, 5, 2, 1, 4, 1][(xid % 8) as usize];
     let tag = json!({"x": xid, "kind": "dl"});
     let mut assembled: Vec<u8> = vec![];
     let mut app_calls = 0u64;
@@ -289,7 +307,7 @@ pub fn download(out: &mut Out, start: Instant, d: &Dl, r: &mut Rng, xid: u64) {
         let mut b2: Option<(u16, bool, u8)> = None;
         for _ in 0..d.prior {
             mid = mid.wrapping_add(1);
-            let pkt = mkreq(&ReqSpec { code: 1, typ: d.typ, mid, tok: r.bytes(d.toklen), segs: &d.segs, b1: None, b2, pay: vec![], extra: req_extra(d.reqopts) });
+            let pkt = mkreq(&ReqSpec { code: dcode, typ: d.typ, mid, tok: r.bytes(d.toklen), segs: &d.segs, b1: None, b2, pay: vec![], extra: req_extra(d.reqopts) });
             let (o, mut req) = h.ireq(out, ep, &pkt, &json!({"x": xid, "kind": "dl-prior"}));
             if o["k"] == "ok" && o["handled"] == false {
                 if let Some(resp) = req.response.as_mut() {
@@ -309,7 +327,7 @@ pub fn download(out: &mut Out, start: Instant, d: &Dl, r: &mut Rng, xid: u64) {
     loop {
         mid = mid.wrapping_add(1);
         let tl = if r.chance(1, 3) { r.below(d.toklen as u64 + 1) as usize } else { d.toklen };
-        let pkt = mkreq(&ReqSpec { code: 1, typ: d.typ, mid, tok: r.bytes(tl), segs: &d.segs, b1: None, b2: req_b2, pay: vec![], extra: req_extra(d.reqopts) });
+        let pkt = mkreq(&ReqSpec { code: dcode, typ: d.typ, mid, tok: r.bytes(tl), segs: &d.segs, b1: None, b2: req_b2, pay: vec![], extra: req_extra(d.reqopts) });
         let (o, mut req) = h.ireq(out, ep, &pkt, &tag);
         if o["k"] != "ok" {
             aborted = "intercept_request failed";
@@ -376,8 +394,11 @@ pub fn download(out: &mut Out, start: Instant, d: &Dl, r: &mut Rng, xid: u64) {
     let mut after_release = json!("na");
     if done {
         mid = mid.wrapping_add(1);
-        let b2 = last_szx.map(|s| (0u16, false, s));
-        let pkt = mkreq(&ReqSpec { code: 1, typ: d.typ, mid, tok: r.bytes(d.toklen), segs: &d.segs, b1: None, b2, pay: vec![], extra: vec![] });
+        // (a transfer that completed in a single block never replaced what an unfinished earlier transfer left
+        // cached for the key: a probe carrying Block2 would then start a transfer while an unfinished one is
+        // cached, which is outside C08's quantifier - the probe goes without the option there)
+        let b2 = if d.prior > 0 && blocks <= 1 { None } else { last_szx.map(|s| (0u16, false, s)) };
+        let pkt = mkreq(&ReqSpec { code: dcode, typ: d.typ, mid, tok: r.bytes(d.toklen), segs: &d.segs, b1: None, b2, pay: vec![], extra: vec![] });
         let (o, _) = h.ireq(out, ep, &pkt, &json!({"x": xid, "kind": "dl-after"}));
         after_release = o;
     }
@@ -410,6 +431,10 @@ pub fn upload(out: &mut Out, start: Instant, u: &Ul, r: &mut Rng, xid: u64) {
     let ep = "client-u";
     let mut mid: u16 = r.next() as u16;
     let size = 1usize << (u.szx + 4);
+    // every method that carries a body uploads block-wise: PUT, POST, FETCH, PATCH, iPATCH (one per transfer)
+    let ucode: u8 = [3u8, 2, 5, 3, 6, 7][(xid % 6) as usize];
+    // ... confirmable or not (one kind per transfer)
+    let utyp: u64 = if xid % 5 == 4 { 1 } else { 0 };
     let mut delivered: Vec<Value> = vec![];
     let mut aborted = "";
     // abandoned prefix of another body
@@ -421,7 +446,7 @@ pub fn upload(out: &mut Out, start: Instant, u: &Ul, r: &mut Rng, xid: u64) {
         }
         let hi = ((k + 1) * size).min(other.len());
         mid = mid.wrapping_add(1);
-        let pkt = mkreq(&ReqSpec { code: 3, typ: 0, mid, tok: r.bytes(u.toklen), segs: &u.segs, b1: Some((k as u16, true, u.szx)), b2: None, pay: other[lo..hi].to_vec(), extra: vec![] });
+        let pkt = mkreq(&ReqSpec { code: ucode, typ: utyp, mid, tok: r.bytes(u.toklen), segs: &u.segs, b1: Some((k as u16, true, u.szx)), b2: None, pay: other[lo..hi].to_vec(), extra: vec![] });
         let _ = h.ireq(out, ep, &pkt, &json!({"x": xid, "kind": "ul-abandoned"}));
     }
     let body = body_bytes(u.body_len, xid as usize);
@@ -460,7 +485,7 @@ pub fn upload(out: &mut Out, start: Instant, u: &Ul, r: &mut Rng, xid: u64) {
                 extra.sort_by_key(|x| x.0);
             }
             let b2 = if more { None } else { u.b2hint.map(|s| (0u16, false, s)) };
-            let pkt = mkreq(&ReqSpec { code: 3, typ: 0, mid, tok: r.bytes(tl), segs: &u.segs, b1: Some((num as u16, more, cur_szx)), b2, pay: chunk.clone(), extra });
+            let pkt = mkreq(&ReqSpec { code: ucode, typ: utyp, mid, tok: r.bytes(tl), segs: &u.segs, b1: Some((num as u16, more, cur_szx)), b2, pay: chunk.clone(), extra });
             let (o, mut req) = h.ireq(out, ep, &pkt, &tag);
             if o["k"] != "ok" {
                 aborted = "intercept_request failed";
@@ -534,7 +559,7 @@ pub fn rec_block2(args: &Args) {
             _ => r.below(200) as usize,
         };
         let big_m = if i % 9 == 4 { *r.pick(&[usize::MAX, 1usize << 40, 1usize << 32]) } else { 1152 };
-        let mut d = Dl { body_len, m: big_m, first_szx: szx_pick, reduce: None, optset: r.below(6) as u8, toklen: r.below(9) as usize, segs: r.pick(&segs).clone(), typ: r.below(2), prior: 0, reqopts: r.below(5) as u8 };
+        let mut d = Dl { body_len, m: big_m, first_szx: szx_pick, reduce: None, optset: r.below(8) as u8, toklen: r.below(9) as usize, segs: r.pick(&segs).clone(), typ: r.below(2), prior: 0, reqopts: r.below(5) as u8 };
         if r.chance(1, 4) {
             d.reduce = Some((r.range(1, 3) as usize, r.below(4) as u8));
         }
@@ -597,7 +622,7 @@ pub fn rec_block1(args: &Args) {
         }
         let dups: Vec<usize> = match r.below(4) { 0 => vec![1], 1 => vec![2], 2 => vec![1, 3, 1, 2], _ => vec![3, 1] };
         let abandoned = if r.chance(1, 2) { r.below(7) as usize } else { 0 };
-        let u = Ul { body_len, szx, m, dups, abandoned, abandoned_len: bs * 7 + 5, toklen, segs: sg, follow: false, grow: 0, reply_len: match r.below(3) { 0 => 0, 1 => r.below(20) as usize, _ => m.min(1280) + r.below(300) as usize }, reply_optset: r.below(6) as u8, b2hint: if r.chance(1, 4) { Some(r.below(7) as u8) } else { None }, empty_final: i % 4 == 2 && r.chance(1, 2) };
+        let u = Ul { body_len, szx, m, dups, abandoned, abandoned_len: bs * 7 + 5, toklen, segs: sg, follow: false, grow: 0, reply_len: match r.below(3) { 0 => 0, 1 => r.below(20) as usize, _ => m.min(1280) + r.below(300) as usize }, reply_optset: r.below(8) as u8, b2hint: if r.chance(1, 4) { Some(r.below(7) as u8) } else { None }, empty_final: i % 4 == 2 && r.chance(1, 2) };
         xid += 1;
         upload(&mut out, start, &u, &mut r, xid);
     }
@@ -638,7 +663,9 @@ pub fn rec_block1(args: &Args) {
                 let u0 = mkreq(&ReqSpec { code: 2, typ: 0, mid: r.next() as u16, tok: r.bytes(toklen), segs: &sg, b1: Some((0, true, 0)), b2: None, pay: body_bytes(16, 1), extra: vec![] });
                 let _ = h.ireq(&mut out, "client-p", &u0, &json!({"kind": "too-large-history"}));
             }
-            let pkt = mkreq(&ReqSpec { code: 2, typ: r.below(2), mid: r.next() as u16, tok: r.bytes(toklen), segs: &sg, b1: None, b2: None, pay: r.bytes(pl), extra: vec![] });
+            // whatever the method (the rule is about the size of the request, not about what it asks for)
+            let code = if pl % 3 == 0 { *r.pick(&[1u8, 2, 3, 4, 5, 6, 7]) } else { 2 };
+            let pkt = mkreq(&ReqSpec { code, typ: r.below(2), mid: r.next() as u16, tok: r.bytes(toklen), segs: &sg, b1: None, b2: None, pay: r.bytes(pl), extra: vec![] });
             let _ = h.ireq(&mut out, "client-p", &pkt, &json!({"kind": "too-large"}));
         }
     }
@@ -657,7 +684,7 @@ pub fn rec_budget(args: &Args) {
     let mut xid = 0u64;
     let rounds = if thorough { 12 } else { 1 };
     for _ in 0..rounds {
-        for optset in 0..6u8 {
+        for optset in 0..8u8 {
             let toklen = r.below(9) as usize;
             let sg = r.pick(&segs).clone();
             let base = Dl { body_len: 0, m: 0, first_szx: None, reduce: None, optset, toklen, segs: sg.clone(), typ: 0, prior: 0, reqopts: 0 };
